@@ -10,6 +10,8 @@ from vlib import w as W
 from vlib.core import Ob
 
 PROPERTY_ID = "C07"
+ENGINE = 'E1 CrossHair 0.0.110 (z3) on the real code'
+TECHNIQUE = 'CrossHair symbolic execution of the real Calculator over operation histories (shard key) with symbolic integer parameter values: after every step the incremental value equals a fresh evaluation; exact reverts and bounds rejections are path conditions decided by z3'
 CLAIM = (
     "for every history of <= 3 changes (each changing any subset of 3 parameters, or exactly reverting the previous step) with ALL parameter values, on a graph with a diamond, a shared argument, "
     "a recycled-buffer cell and a cell that rejects out-of-bounds input: after every step the value returned by the Calculator and testfunction() equal a from-scratch evaluation of the current vector, "
